@@ -113,7 +113,7 @@ prop("C10",
 prop("C11",
      quick=[plain("TestC11Exhaustive"), rapid("TestC11Random", 20000)],
      thorough=[plain("TestC11Exhaustive", env={"VERIF_C11_PAIRS": 1}, shards=8), rapid("TestC11Random", 100000, shards=16)],
-     rule="10 erroring seeds (invalid type, arity, unknown function, zero step, inconsistent/bad key, variadic type, expref as value, nested) x 40 strict context constructors (every operator side, projection kind incl. left operands and right-hand sides, filter condition, function argument positions, expression-reference bodies, multi-select members, pipes) exhaustively (thorough: all ordered pairs), 11 non-strict controls (short-circuit, empty/non-matching projections, multi-select on null), and random stacks of depth 1..6 incl. document-dependent seeds. Oracle: metamorphic (Search(E) errors => Search(C[E]) errors and returns nil) for stacks that guarantee evaluation, and differential vs the reference evaluator for all. Non-trivial: a strict stack whose seed errors.",
+     rule="10 erroring seeds (invalid type, arity, unknown function, zero step, inconsistent/bad key, variadic type, expref as value, nested) x 40 strict context constructors (every operator side, projection kind incl. left operands and right-hand sides, filter condition, function argument positions, expression-reference bodies, multi-select members, pipes) exhaustively (thorough: all ordered pairs), every binary operator with an operand of each of the 36 universe values on the other side of the seed (4 carriers; the reference model decides whether the seed must be evaluated), 11 non-strict controls (short-circuit, empty/non-matching projections, multi-select on null), and random stacks of depth 1..6 incl. document-dependent seeds. Oracle: metamorphic (Search(E) errors => Search(C[E]) errors and returns nil) for stacks that guarantee evaluation, and differential vs the reference evaluator for all. Non-trivial: a strict stack whose seed errors.",
      technique="metamorphic error-preservation under strict evaluation contexts + differential vs reference evaluator; exhaustive singles/pairs, random stacks",
      level_text="All single contexts (thorough: pairs) are enumerated; deeper nestings randomly.",
      min_nontrivial=300)
@@ -141,7 +141,7 @@ prop("C06",
 prop("C12",
      quick=[rapid("TestC12", 500, shards=4, race=True, gomaxprocs=4)],
      thorough=[rapid("TestC12", 3000, shards=8, race=True, gomaxprocs=4), rapid("TestC12", 1500, shards=4, race=True, gomaxprocs=2), rapid("TestC12", 1500, shards=4, race=True, gomaxprocs=16)],
-     rule="rapid cases (expression, document) from three sources (expressions whose literals are shared by the compiled AST and flow into sort_by/reverse/merge; the C06 templates on unsorted documents; document-aware all-function expressions) x 5 modes (one compiled expression + one shared document; + private documents; one-shot Search from all goroutines; mixed with concurrent Compile of other expressions; with a concurrent deep reader of the document): 8 goroutines x 20 iterations released by a barrier, binary built with -race (GORACE=halt_on_error: a report fails the run and is attributed to the running case through a breadcrumb file). Oracle: no race report; every goroutine's result equals the sequential result (bag-aware) which equals the reference model; the shared document is unchanged. Non-trivial: at least two goroutines overlapped and the expression reaches a function or projection.",
+     rule="rapid cases (expression, document) from three sources (expressions whose literals are shared by the compiled AST and flow into sort_by/reverse/merge; the C06 templates on unsorted documents; document-aware all-function expressions) plus expressions over a Go struct document (reflection paths; mode 'struct': results compared with the sequential call) x 5 modes (one compiled expression + one shared document; + private documents; one-shot Search from all goroutines; mixed with concurrent Compile of other expressions; with a concurrent deep reader of the document): 8 goroutines x 20 iterations released by a barrier, binary built with -race (GORACE=halt_on_error: a report fails the run and is attributed to the running case through a breadcrumb file). Oracle: no race report; every goroutine's result equals the sequential result (bag-aware) which equals the reference model; the shared document is unchanged. Non-trivial: at least two goroutines overlapped and the expression reaches a function or projection.",
      technique="concurrent execution of generated cases under the Go race detector + per-goroutine result = sequential result = reference model",
      level_text="The race detector is happens-before based, so coverage is driven by which code paths run concurrently (controlled by the generator) rather than by timing luck; an atomicity violation without a data race is found only if it changes a result in an explored run. The harness does not own the scheduler: reduced strength, see DESIGN.md section 10.",
      min_nontrivial=200,
@@ -156,9 +156,9 @@ prop("C13",
      min_nontrivial=300)
 
 prop("C14",
-     quick=[rapid("TestC14Quoted", 20000), rapid("TestC14Raw", 20000), rapid("TestC14Literal", 20000), plain("TestC14Identifiers")],
-     thorough=[rapid("TestC14Quoted", 100000, shards=5), rapid("TestC14Raw", 100000, shards=5), rapid("TestC14Literal", 100000, shards=6), plain("TestC14Identifiers")],
-     rule="round trips over Unicode strings biased to hard characters (quotes, backslash, backtick, slash, control characters, U+0080, U+2028, U+FFFD, BOM, combining marks, astral planes) and JSON values containing them: quoted identifier written with a randomised JSON escaper (literal / short escape / \\uXXXX upper+lower / surrogate pairs) selects exactly key s (also after a dot and as multi-select hash key); raw string with ' written as \\' denotes exactly s (raw domain only), also inside a larger expression; backtick literal with randomised escaping/whitespace denotes exactly v (standard library as referee of the spelling); exhaustive: all 1- and 2-character ASCII strings and all 3-character strings over a 19-character alphabet are unquoted identifiers iff they match [A-Za-z_][A-Za-z0-9_]*. Whitespace insignificance is exercised by the random renderings of C03/C04. Non-trivial: the string needs an escape or contains a non-ASCII rune; every literal; every identifier candidate.",
+     quick=[rapid("TestC14Quoted", 20000), rapid("TestC14Raw", 20000), rapid("TestC14Literal", 20000), rapid("TestC14Whitespace", 20000), plain("TestC14Identifiers")],
+     thorough=[rapid("TestC14Quoted", 100000, shards=5), rapid("TestC14Raw", 100000, shards=5), rapid("TestC14Literal", 100000, shards=4), rapid("TestC14Whitespace", 100000, shards=2), plain("TestC14Identifiers")],
+     rule="round trips over Unicode strings biased to hard characters (quotes, backslash, backtick, slash, control characters, U+0080, U+2028, U+FFFD, BOM, combining marks, astral planes) and JSON values containing them: quoted identifier written with a randomised JSON escaper (literal / short escape / \\uXXXX upper+lower / surrogate pairs) selects exactly key s (also after a dot and as multi-select hash key); raw string with ' written as \\' denotes exactly s (raw domain only), also inside a larger expression; backtick literal with randomised escaping/whitespace denotes exactly v (standard library as referee of the spelling); exhaustive: all 1- and 2-character ASCII strings and all 3-character strings over a 19-character alphabet are unquoted identifiers iff they match [A-Za-z_][A-Za-z0-9_]*. Whitespace: the same token list (sentences and mutants) rendered with single spaces and with random space/tab/LF/CR/CRLF runs (or glued where the tokens stay separate) must compile alike and to the same AST. Non-trivial: the string needs an escape or contains a non-ASCII rune; every literal; every identifier candidate.",
      technique="round-trip properties with randomised escapers (rapid) + exhaustive short identifiers",
      level_text="Round trips need no reference implementation; the standard library's JSON decoder referees the spellings the harness writes.",
      min_nontrivial=10000)
@@ -188,9 +188,9 @@ prop("C17",
      min_nontrivial=5000)
 
 prop("C18",
-     quick=[rapid("TestC18Equiv", 20000), rapid("TestC18Lowercase", 10000), rapid("TestC18NoPanic", 20000), plain("TestC18HandWritten")],
-     thorough=[rapid("TestC18Equiv", 100000, shards=8), rapid("TestC18Lowercase", 50000, shards=2), rapid("TestC18NoPanic", 100000, shards=6), plain("TestC18HandWritten")],
-     rule="rapid: struct types built at run time (reflect.StructOf / SliceOf / PointerTo): nested structs by value and by pointer (nil and non-nil), non-nil slices of structs / pointers (with nil elements) / strings / float64 / slices, scalar leaves string, float64, bool, int; root by value or by pointer; values filled by rapid; generic twin = JSON round trip of the Go value. (a) navigational fragment (exact field names, index, slice, flatten, list and filter projections with !/||/&& conditions, multi-select, pipe, length() of slices and strings): JSON-normalised struct result == generic result, error presence equal; (b) lower-case first letter: same result as the exported spelling on the struct form; (c) all-function document-aware expressions: no panic; (d) hand-written types (unexported, embedded, caseless-script fields, nil roots/elements) x ~100 expressions x 4 contexts: no panic, nil pointers behave as null. Non-trivial: the type contains a pointer or typed slice and the generic result is non-null or the document contains a null.",
+     quick=[rapid("TestC18Equiv", 20000), rapid("TestC18Lowercase", 10000), rapid("TestC18NoPanic", 20000), plain("TestC18HandWritten"), plain("TestC18Slices")],
+     thorough=[rapid("TestC18Equiv", 100000, shards=8), rapid("TestC18Lowercase", 50000, shards=2), rapid("TestC18NoPanic", 100000, shards=6), plain("TestC18HandWritten"), plain("TestC18Slices")],
+     rule="rapid: struct types built at run time (reflect.StructOf / SliceOf / PointerTo): nested structs by value and by pointer (nil and non-nil), non-nil slices of structs / pointers (with nil elements) / strings / float64 / slices, scalar leaves string, float64, bool, int; root by value or by pointer; values filled by rapid; generic twin = JSON round trip of the Go value. (a) navigational fragment (exact field names, index, slice, flatten, list and filter projections with !/||/&& conditions, multi-select, pipe, length() of slices and strings): JSON-normalised struct result == generic result, error presence equal; (b) lower-case first letter: same result as the exported spelling on the struct form; (c) all-function document-aware expressions: no panic; (d) hand-written types (unexported, embedded, caseless-script fields, nil roots/elements) x ~100 expressions x 4 contexts: no panic, nil pointers behave as null; (e) 6 typed-slice fields x 14^3 slice parameter triples (window and 64-bit boundary values) and indices: struct form == generic form. Non-trivial: the type contains a pointer or typed slice and the generic result is non-null or the document contains a null.",
      technique="differential struct form vs generic JSON form over run-time generated struct types (rapid + reflect.StructOf), recover() for the no-panic half",
      level_text="Types and values are generated; comparators, object wildcards, functions other than length, nil slices and pointer-to-pointer fields are outside the property's domain and are not asserted.",
      min_nontrivial=3000)
